@@ -463,7 +463,15 @@ pub fn replay(path: &str) -> i32 {
         println!("replaying {} [{}]: {}", v["property"].as_str().unwrap_or(""), v["class"].as_str().unwrap_or(""), v["message"].as_str().unwrap_or(""));
         return crate::units::replay(&v);
     }
-    if matches!(v["kind"].as_str(), Some("cli") | Some("action") | Some("python") | Some("digest") | Some("sweep") | Some("pair") | Some("schedule") | Some("hash-order")) {
+    if v["kind"].as_str() == Some("hash-order") {
+        println!("replaying {} [{}]: {}", v["property"].as_str().unwrap_or(""), v["class"].as_str().unwrap_or(""), v["message"].as_str().unwrap_or(""));
+        return crate::purity::replay_hash_order(&v);
+    }
+    if v["kind"].as_str() == Some("pair") {
+        println!("replaying {} [{}]: {}", v["property"].as_str().unwrap_or(""), v["class"].as_str().unwrap_or(""), v["message"].as_str().unwrap_or(""));
+        return crate::purity::replay_pair(&v);
+    }
+    if matches!(v["kind"].as_str(), Some("cli") | Some("action") | Some("python") | Some("digest") | Some("sweep") | Some("schedule")) {
         println!("replaying {} [{}]: {}", v["property"].as_str().unwrap_or(""), v["class"].as_str().unwrap_or(""), v["message"].as_str().unwrap_or(""));
         println!("this finding involves a front end / several processes / a schedule; its inputs are:\n{}", serde_json::to_string_pretty(&v).unwrap_or_default());
         println!("re-run: bin/check {} quick", v["property"].as_str().unwrap_or("Cxx"));
